@@ -60,11 +60,13 @@ Record pdb := Pdb {
   wlog : list wop;
   flushes : list nat;
   effmode : bool;
-  elog : list wop
+  elog : list wop;
+  dhist : list store      (* every state the disk went through, oldest first *)
 }.
 
 Definition pflush (p : pdb) : pdb :=
-  Pdb (sapply_all (disk p) (pend p)) [] (sched p) (wlog p) (flushes p) (effmode p) (elog p).
+  let d := sapply_all (disk p) (pend p) in
+  Pdb d [] (sched p) (wlog p) (flushes p) (effmode p) (elog p) (dhist p ++ [d]).
 
 Definition effective (p : pdb) (o : wop) : bool :=
   match o with
@@ -76,15 +78,17 @@ Definition pwrite (p : pdb) (o : wop) : pdb :=
   let e := effective p o in
   let elog' := if e then elog p ++ [o] else elog p in
   if effmode p && negb e then
-    Pdb (disk p) (pend p ++ [o]) (sched p) (wlog p ++ [o]) (flushes p) (effmode p) elog'
+    Pdb (disk p) (pend p ++ [o]) (sched p) (wlog p ++ [o]) (flushes p) (effmode p) elog' (dhist p)
   else
     match sched p with
     | true :: rest =>
-        Pdb (sapply_all (disk p) (pend p)) [o] rest (wlog p ++ [o])
+        let d := sapply_all (disk p) (pend p) in
+        Pdb d [o] rest (wlog p ++ [o])
             (flushes p ++ [length (if effmode p then elog p else wlog p)]) (effmode p) elog'
+            (dhist p ++ [d])
     | false :: rest =>
-        Pdb (disk p) (pend p ++ [o]) rest (wlog p ++ [o]) (flushes p) (effmode p) elog'
-    | [] => Pdb (disk p) (pend p ++ [o]) [] (wlog p ++ [o]) (flushes p) (effmode p) elog'
+        Pdb (disk p) (pend p ++ [o]) rest (wlog p ++ [o]) (flushes p) (effmode p) elog' (dhist p)
+    | [] => Pdb (disk p) (pend p ++ [o]) [] (wlog p ++ [o]) (flushes p) (effmode p) elog' (dhist p)
     end.
 
 (** ** Reads (nodedb.go GetNode, GetRoot) *)
@@ -173,6 +177,17 @@ Definition nit_next (st : store) (it : nit) (skip : bool) : nit :=
           end
     end.
 
+(** structural equality of trees (keys, values, heights, sizes, versions, nonces, hashes) *)
+Definition meta_beq (a b : meta) : bool :=
+  (ver a =? ver b) && (nonce a =? nonce b) && beq (hs a) (hs b).
+Fixpoint node_beq (a b : node) : bool :=
+  match a, b with
+  | Leaf k v m, Leaf k' v' m' => beq k k' && beq v v' && meta_beq m m'
+  | Inner k h s m l r, Inner k' h' s' m' l' r' =>
+      beq k k' && (h =? h') && (s =? s') && meta_beq m m' && node_beq l l' && node_beq r r'
+  | _, _ => false
+  end.
+
 Section Prune.
   Variable H : bytes -> bytes.
 
@@ -201,6 +216,7 @@ Section Prune.
     | S fuel' =>
         if negb (nit_valid prev) then
           (if nerr cur then PErr else if nerr prev then PErr else POk p)
+        else if nerr cur then PErr     (* a node of the current tree could not be read: stop *)
         else
           match org, nit_valid cur with
           | None, true =>
@@ -328,13 +344,66 @@ Section Prune.
     : pres (store * list wop * list nat) :=
     if latest <=? to then PErr
     else
-      let p0 := Pdb st [] schedule [] [] eff [] in
+      let p0 := Pdb st [] schedule [] [] eff [] [st] in
       match delete_range (prune_fuel st) (versions_from_to first to) p0 rkc_new with
       | POk p => let pf := pflush p in POk (disk pf, (if eff then elog pf else wlog pf), flushes pf)
       | PNoVersion => PNoVersion
       | PErr => PErr
       | PFuel => PFuel
       end.
+
+  (** the same run, returning every state the disk went through (the initial one first, the
+      final one last): what a reader, or a crash, can see *)
+  Definition prune_phys_disks (eff : bool) (st : store) (schedule : list bool) (first latest to : Z)
+    : pres (list store) :=
+    if latest <=? to then PErr
+    else
+      let p0 := Pdb st [] schedule [] [] eff [] [st] in
+      match delete_range (prune_fuel st) (versions_from_to first to) p0 rkc_new with
+      | POk p => POk (dhist (pflush p))
+      | PNoVersion => PNoVersion
+      | PErr => PErr
+      | PFuel => PFuel
+      end.
+
+  (** ** Loading a version back from a store (GetRoot, then GetNode down to the leaves) *)
+  Definition norm_nonce (k : nodekey) : Z := if snd k =? 0 then 1 else snd k.
+
+  Fixpoint load_node (fuel : nat) (st : store) (k : nodekey) : option node :=
+    match fuel with
+    | O => None
+    | S fuel' =>
+        match get_node st k with
+        | None => None
+        | Some (SLeaf key v) =>
+            Some (Leaf key v (Meta (fst k) (norm_nonce k) (fetched_hash k (SLeaf key v))))
+        | Some (SInner key h sz hash lk rk) =>
+            match load_node fuel' st lk, load_node fuel' st rk with
+            | Some l, Some r => Some (Inner key h sz (Meta (fst k) (norm_nonce k) hash) l r)
+            | _, _ => None
+            end
+        end
+    end.
+
+  (** [POk None] = the empty tree *)
+  Definition load_version (fuel : nat) (st : store) (v : Z) : pres (option node) :=
+    match get_root st v with
+    | POk None => POk None
+    | POk (Some k) => match load_node fuel st k with Some t => POk (Some t) | None => PErr end
+    | PNoVersion => PNoVersion
+    | PErr => PErr
+    | PFuel => PFuel
+    end.
+
+  (** every version of the forest loads back, node for node, from the store *)
+  Definition readable (st : store) (f : list (Z * option node)) : bool :=
+    forallb (fun p =>
+               match load_version (S (length st)) st (fst p), snd p with
+               | POk None, None => true
+               | POk (Some t), Some t' =>
+                   node_beq t t'
+               | _, _ => false
+               end) f.
 End Prune.
 
 (** ** The physical store of a forest
@@ -366,3 +435,7 @@ Definition latest_of_forest (f : list (Z * option node)) : Z :=
 Definition prune_forest (H : bytes -> bytes) (eff : bool) (r : list Z) (f : list (Z * option node))
            (schedule : list bool) (to : Z) : pres (store * list wop * list nat) :=
   prune_phys H eff (phys_of r f) schedule (first_of_forest f) (latest_of_forest f) to.
+
+Definition prune_forest_disks (H : bytes -> bytes) (eff : bool) (r : list Z) (f : list (Z * option node))
+           (schedule : list bool) (to : Z) : pres (list store) :=
+  prune_phys_disks H eff (phys_of r f) schedule (first_of_forest f) (latest_of_forest f) to.
